@@ -216,8 +216,11 @@ def _run_base(ctx):
         for c in calls_in(fn, nested=False):
             if ('class', 'nbdime.diff_format:DiffEntry') in cg.resolve(c.func, fn):
                 is_copy = (len(c.args) == 1 and not c.keywords) or (not c.args and len(c.keywords) == 1 and c.keywords[0].arg is None)
-                ok = fid in allowed_other and (is_copy or fid == GEN + ':create_parent_deletion_counter_diff')
-                ctx.inst('R09.4', fid, repo.norm(c), ok, allowed_other.get(fid, '') if ok else
+                # by shape, not by location: a copy/revival of an existing entry, or the internal pseudo-op (kept internal by C03 R03.5)
+                opk = [k.value for k in c.keywords if k.arg == 'op']
+                pseudo = bool(opk) and (const_val(opk[0]) == 'parent_deleted' or (dotted(opk[0]) or '').lower().endswith('parent_deleted') or (dotted(opk[0]) or '').endswith('ParentDeleted'))
+                ok = is_copy or pseudo
+                ctx.inst('R09.4', fid, repo.norm(c), ok, ('copy/revival of an existing entry' if is_copy else 'internal pseudo-op (see C03 R03.5)') if ok else
                          'a diff entry is assembled by hand outside the op_* constructors: its fields are not tied to the schema', c)
     if GEN + ':create_parent_deletion_counter_diff' in reach:
         ctx.note('merging/autoresolve.py uses the extra decision field _level but is not reachable from the public merge API' if
@@ -250,7 +253,23 @@ def split_addrange_algebra(ctx, rule):
     wl = [n for n in walk_no_nested(sa) if isinstance(n, ast.While)]
     if len(wl) != 1:
         raise AnalysisError('_split_addrange: main loop not found')
-    chains = [st for st in wl[0].body if isinstance(st, ast.If) and any(isinstance(c, ast.Call) and isinstance(c.func, ast.Attribute) and dotted(c.func.value) == 'decisions'
+    # names are derived, not assumed: the decision builder, and the two cursors by the way they are used
+    dvars = {t.id for n in walk_no_nested(sa) if isinstance(n, ast.Assign) and isinstance(n.value, ast.Call) and (dotted(n.value.func) or '').endswith('MergeDecisionBuilder')
+             for t in n.targets if isinstance(t, ast.Name)} or {'decisions'}
+    sparams = [a.arg for a in sa.args.args]
+    p_local, p_remote = (sparams[1], sparams[2]) if len(sparams) > 2 else ('local', 'remote')
+    auged = {n.target.id for n in walk_no_nested(sa) if isinstance(n, ast.AugAssign) and isinstance(n.target, ast.Name)}
+    v_taken = v_offset = None
+    for n in walk_no_nested(sa):
+        if isinstance(n, ast.Subscript) and isinstance(n.value, ast.Name):
+            if n.value.id == p_local and isinstance(n.slice, ast.Slice) and isinstance(n.slice.lower, ast.Name) and n.slice.lower.id in auged:
+                v_taken = v_taken or n.slice.lower.id
+            if n.value.id == p_remote and not isinstance(n.slice, ast.Slice):
+                for x in ast.walk(n.slice):
+                    if isinstance(x, ast.Name) and x.id in auged:
+                        v_offset = v_offset or x.id
+    v_taken, v_offset = v_taken or 'taken', v_offset or 'offset'
+    chains = [st for st in wl[0].body if isinstance(st, ast.If) and any(isinstance(c, ast.Call) and isinstance(c.func, ast.Attribute) and dotted(c.func.value) in dvars
                                                                           for c in ast.walk(st))]
     chain5 = max(chains, key=lambda st: len(if_chain(st)[0])) if chains else None
     if chain5 is None:
@@ -267,19 +286,19 @@ def split_addrange_algebra(ctx, rule):
             for st in stmts:
                 if isinstance(st, ast.Assign) and len(st.targets) == 1 and isinstance(st.targets[0], ast.Name):
                     env.setdefault(st.targets[0].id, []).append(st.value)
-                elif isinstance(st, ast.AugAssign) and isinstance(st.target, ast.Name) and st.target.id in ('offset', 'taken', 'i'):
+                elif isinstance(st, ast.AugAssign) and isinstance(st.target, ast.Name) and st.target.id in auged:
                     v = lin(st.value, env)
                     if isinstance(st.op, ast.Sub) and v is not None:
                         v = {k: -c for k, c in v.items()}
-                    if st.target.id == 'offset':
+                    if st.target.id == v_offset:
                         d_off = None if (v is None or d_off is None) else {k: c for k, c in {**d_off, **{k2: d_off.get(k2, 0) + c2 for k2, c2 in v.items()}}.items() if c}
-                    elif st.target.id == 'taken':
+                    elif st.target.id == v_taken:
                         d_taken = None if (v is None or d_taken is None) else {k: c for k, c in {**d_taken, **{k2: d_taken.get(k2, 0) + c2 for k2, c2 in v.items()}}.items() if c}
                 elif isinstance(st, ast.If):
                     walk_arm(st.body)
                     walk_arm(st.orelse)
                 for c in ast.walk(st):
-                    if isinstance(c, ast.Call) and isinstance(c.func, ast.Attribute) and dotted(c.func.value) == 'decisions' and not isinstance(st, ast.If):
+                    if isinstance(c, ast.Call) and isinstance(c.func, ast.Attribute) and dotted(c.func.value) in dvars and not isinstance(st, ast.If):
                         dec_calls.append(c)
         walk_arm(body)
         if not dec_calls:
@@ -342,6 +361,7 @@ def run(ctx):
         ok, why = single_pass_construction(fn, lst)
         if ok and kind == 'key-only':
             # the stable sort only preserves what the INPUT order already guarantees: look at what the callers pass
+            concat_callers = []
             for cfid, cfn in sorted(repo.functions.items()):
                 if not cfid.startswith('nbdime.') or cfid == fid:
                     continue
@@ -354,10 +374,13 @@ def run(ctx):
                         from ..util import local_defs as _ld
                         concat = any(k in ('mutate', 'aug') and 'extend' in ast.unparse(st) for v, k, st in _ld(cfn).get(a0.id, []))
                     if concat:
-                        ctx.inst('R09.15', cfid, '%s  [sorted by key only in %s]' % (repo.norm(c2), fid.split(':')[1]), False,
-                                 'the argument concatenates the diffs of SEVERAL decisions (deeper decisions first), so an addrange can arrive after a patch of the same index; '
-                                 'the key-only stable sort keeps that order and patch_list/patch_string then put the inserted item AFTER the patched one: one side inserts a line '
-                                 'above a line that is also patched -> "Xnew\\nabcdefgh\\n" instead of "new\\nXabcdefgh\\n", reported as a clean merge', c2)
+                        concat_callers.append(cfid.split(':')[1])
+            if concat_callers:
+                # ONE finding, at the function that sorts (the root cause); which callers concatenate is detail, not identity
+                ctx.inst('R09.15', fid, 'key-only re-sort  [input: concatenated diffs of several decisions]', False,
+                         'callers (%s) pass the concatenated diffs of SEVERAL decisions (deeper decisions first), so an addrange can arrive after a patch of the same index; '
+                         'the key-only stable sort keeps that order and patch_list/patch_string then put the inserted item AFTER the patched one: one side inserts a line '
+                         'above a line that is also patched -> "Xnew\\nabcdefgh\\n" instead of "new\\nXabcdefgh\\n", reported as a clean merge' % ', '.join(sorted(set(concat_callers))), call)
         ctx.inst('R09.8', fid, repo.norm(call), ok and kind == 'key-only',
                  'stable sort of a list that is %s: an addrange stays in front of the patch/removerange on the same key' % why if ok and kind == 'key-only' else
                  ('%s; patch_list needs an addrange to come before a patch/removerange at the same key, which only input order guarantees here' % why
